@@ -639,3 +639,96 @@ pub fn killed(ctx: &Ctx) -> Stats {
     st
 }
 
+/// The earlier run used an *almost identical* input: the same records except one in the middle (same id, same length,
+/// other bases) — the situation after a record was corrected and the command repeated.  Outputs have the same size and
+/// the same beginning and end, so anything that decides "nothing changed" from size, time stamps or a sample of the
+/// content keeps the stale middle.
+pub fn nearby(ctx: &Ctx) -> Stats {
+    let n = ctx.n(16, 160);
+    par_cases(ctx, n, |idx, st| {
+        let mut rng = Rng::keyed(ctx.seed, "c17.nearby", idx);
+        let sc = Scratch::new(ctx, "c17n");
+        let family = idx % 8;
+        let nrec = rng.usize(900, 1500);
+        let a: Vec<Rec> = (0..nrec).map(|i| Rec { id: format!("n{}", i), desc: None, seq: (0..rng.usize(40, 90)).map(|_| *rng.pick(b"ACGT")).collect() }).collect();
+        let mut b = a.clone();
+        let mid = nrec / 2 + rng.usize(0, 20);
+        let l = b[mid].seq.len();
+        b[mid].seq = (0..l).map(|_| *rng.pick(b"ACGT")).collect();
+        if b[mid].seq == a[mid].seq {
+            b[mid].seq[0] = if a[mid].seq[0] == b'A' { b'C' } else { b'A' };
+        }
+        let inp = sc.path("reads.fa");
+        let inp_fresh = sc.write("reads_copy.fa", &ser::to_fasta(&b, &SerOpts::plain()));
+        let t = rng.usize(1, 8).to_string();
+        let (argv, is_dir, inner, ordered): (Vec<String>, bool, &str, bool) = match family {
+            0 => (sv(&["comp", "oligo", "-i", &inp, "-k", &rng.usize(3, 5).to_string(), "-t", &t]), false, "", true),
+            1 => (sv(&["comp", "oligo", "-i", &inp, "-k", &rng.usize(3, 5).to_string(), "-c", "-t", &t]), false, "", true),
+            2 => (sv(&["comp", "cgr", "-i", &inp, "-v", "64", "-t", &t]), false, "", true),
+            3 => (sv(&["comp", "cgr", "-i", &inp, "-k", &rng.usize(3, 4).to_string(), "-v", "64", "-t", &t]), false, "", true),
+            4 => (sv(&["ctr", "-i", &inp, "-k", &rng.usize(10, 14).to_string(), "-t", &t]), true, "kmers.counts", false),
+            5 => (sv(&["cov", "-i", &inp, "-k", &rng.usize(7, 10).to_string(), "-s", "5", "-c", "7", "-t", &t]), true, "kmers.vectors", true),
+            6 => (sv(&["min", "-i", &inp, "-m", "8", "-w", "14", "-p", "s2m", "-t", &t]), false, "", false),
+            _ => (sv(&["min", "-i", &inp, "-m", "8", "-w", "14", "-p", "m2s", "-t", &t]), false, "", false),
+        };
+        let fam_name = ["comp oligo", "comp oligo -c", "comp cgr", "comp cgr -k", "ctr", "cov", "min s2m", "min m2s"][family as usize];
+        st.case(true, mix(idx) ^ hash_bytes(argv.join(" ").as_bytes()));
+        st.class(fam_name);
+        let shared = sc.path("shared");
+        let fresh = sc.path("fresh");
+        let case = || Json::obj().set("argv", Json::s(argv.join(" "))).set("records", Json::u(nrec)).set("changed_record", Json::u(mid)).set("old_bases", Json::bytes(&a[mid].seq)).set("new_bases", Json::bytes(&b[mid].seq));
+        let run = |st: &mut Stats, a: &[String], out: &str| -> Option<bool> {
+            let mut args = a.to_vec();
+            args.push("-o".into());
+            args.push(out.to_string());
+            let r = run_cli(ctx, &args, None, &CliLimits::default());
+            if r.timed_out && !r.cpu_exceeded && !r.stalled {
+                st.inconclusive(format!("CLI watchdog: {}", r.describe()));
+                return None;
+            }
+            Some(r.ok())
+        };
+        let argv_fresh = mk_same(&argv, &inp, &inp_fresh);
+        let _ = std::fs::write(&inp, ser::to_fasta(&a, &SerOpts::plain()));
+        for (step, (av, out)) in [(&argv, &shared), (&argv, &shared), (&argv_fresh, &fresh)].into_iter().enumerate() {
+            if step == 1 {
+                let _ = std::fs::write(&inp, ser::to_fasta(&b, &SerOpts::plain()));
+            }
+            match run(st, av, out) {
+                None => return,
+                Some(false) => {
+                    st.violate(&format!("history.cli_run_failed:{}", fam_name), format!("{} failed (step {})", av.join(" "), step), case());
+                    return;
+                }
+                Some(true) => {}
+            }
+        }
+        let read = |base: &str| -> Vec<u8> {
+            let p = if is_dir { format!("{}/{}", base, inner) } else { base.to_string() };
+            std::fs::read(p).unwrap_or_default()
+        };
+        let (x, y) = (read(&shared), read(&fresh));
+        let same = if ordered { x == y } else if family == 7 { super::c10::normalise_m2s(&x) == super::c10::normalise_m2s(&y) } else { sorted_lines(&x) == sorted_lines(&y) };
+        if !same {
+            st.violate(
+                &format!("history.depends_on_similar_earlier_run:cli.{}", fam_name),
+                format!("[{}] after a run on the same {} records except record {}: {} bytes, differs from a fresh location ({} bytes)", argv.join(" "), nrec, mid, x.len(), y.len()),
+                case(),
+            );
+        } else if idx % 5 == 0 {
+            st.sample(case());
+        }
+        let _ = std::fs::remove_dir_all(&shared);
+        let _ = std::fs::remove_file(&shared);
+        if let Some(dir) = std::path::Path::new(&inp).parent() {
+            if let Ok(rd) = std::fs::read_dir(dir) {
+                for e in rd.flatten() {
+                    if e.file_name().to_string_lossy().starts_with("reads.fa") {
+                        let _ = std::fs::remove_file(e.path());
+                    }
+                }
+            }
+        }
+    })
+}
+
